@@ -2,4 +2,7 @@ import MpirProofs.Lemmas.Base
 import MpirProofs.Lemmas.Kernels
 import MpirProofs.Props.C03
 import MpirProofs.Lemmas.DivWord
+import MpirProofs.Lemmas.DivWordExact
+import MpirProofs.Lemmas.DivWord3by2
+import MpirProofs.Lemmas.DivWordHensel
 import MpirProofs.Props.C02_word
